@@ -6,7 +6,7 @@ import sys
 
 from hypothesis import strategies as st
 
-from .. import adapter, gen, pristine
+from .. import adapter, gen, genwasm, pristine
 from .. import model as M
 
 LEVEL = "exploration"
@@ -85,6 +85,9 @@ def clash_variant(src, mapping_seed):
 @st.composite
 def source(draw, allow_bad=True):
     k = draw(st.integers(0, 99))
+    if k < 12:
+        # inside the wasm backend's subset, so that emitted bytes (not only refusals) are compared
+        return draw(genwasm.subset_case(n_inputs=0)).source()
     if k < 55:
         case = draw(gen.core_case(n_inputs=0))
         src = case.source()
@@ -238,8 +241,10 @@ def seeds_worker_factory(R, n_sources):
         for i, req in enumerate(srcs):
             ctx.count()
             ctx.nontrivial(req)
-            if base[i].get("ok") and req[2]:
-                ctx.label("seeds:wasm-compared")
+            if req[2]:
+                ctx.label("seeds:wasm-requested")
+            if base[i].get("ok") and req[2] and not str(base[i].get("wasm", "write-refused")).startswith("write-refused"):
+                ctx.label("seeds:wasm-bytes-compared")
             for hs in variants[1:]:
                 if results[hs][i] != base[i]:
                     ctx.fail("hashseed|" + _which(base[i], results[hs][i]),
@@ -299,4 +304,5 @@ def run(R):
     R.require("batch-compared")
     R.require("history-with-rejected")
     R.require("target-accepted")
-    R.require("seeds:wasm-compared")
+    R.require("seeds:wasm-requested")
+    R.require("seeds:wasm-bytes-compared")
